@@ -12,6 +12,10 @@ import vlib  # noqa: E402
 
 REGISTRY = {
     "C20": ("checks_ring", "check_c20"),
+    "C01": ("checks_core", "check_c01"),
+    "C04": ("checks_core", "check_c04"),
+    "C12": ("checks_core", "check_c12"),
+    "C18": ("checks_core", "check_c18"),
 }
 
 
